@@ -7,3 +7,5 @@ import NxsModel.Pad
 import NxsModel.Requests
 import NxsModel.Props.C05
 import NxsModel.Props.C17
+import NxsModel.Props.C06
+import NxsModel.Props.C19
